@@ -120,6 +120,16 @@ func NearThreshold(s *big.Rat, canNeg bool) bool {
 	return false
 }
 
+// Neutral reports whether a flipped shaped value sounds no direction of a key-emulating axis
+// (below 49 % of travel on either side).
+func Neutral(f *big.Rat, canNeg bool) bool {
+	v := f
+	if !canNeg {
+		v = new(big.Rat).Sub(new(big.Rat).Mul(rat(2), f), rOne)
+	}
+	return abs(v).Cmp(big.NewRat(48, 100)) < 0
+}
+
 func floorCeil(r *big.Rat) (int, int) {
 	f := new(big.Int).Div(r.Num(), r.Denom()) // Div is Euclidean: floor for positive denominators
 	fl := int(f.Int64())
@@ -191,13 +201,14 @@ func (m *Dev) abs(ev Event, got []Msg, signals int) *Violation {
 				if g.Kind == 'F' && g.Ch == st.pair.Ch && g.A == st.pair.Pitch {
 					got = append(append([]Msg(nil), got[:i]...), got[i+1:]...)
 					m.probe("keyaxis_released_in_other_mapping")
+					st.pair = nil // released early; the direction stays physically deflected
 					break
 				}
 			}
 		}
 		rest := int32(0)
-		if a != nil && a.Min == 0 {
-			rest = (a.Max + 1) / 2
+		if pa := m.physAxis(ev.Code); pa != nil && pa.Min == 0 {
+			rest = (pa.Max + 1) / 2
 		}
 		if ev.Value == rest {
 			st.dir, st.pair = 0, nil
@@ -445,6 +456,20 @@ func (m *Dev) keyAxis(ev Event, a *AxisDesc, st *axisState, f *big.Rat, canNeg b
 	if wantOff != nil && !sawOff {
 		props := []string{"C08", "C01"}
 		return viol("keyaxis_missing_off", fmt.Sprintf("%s left direction: expected Note Off %v, emitted %s (cc_learning gate active: %v)", ev, *wantOff, fmtMsgs(got), gated), props...)
+	}
+	return nil
+}
+
+// physAxis returns any description of the axis (the physical range is the same in every mapping).
+func (m *Dev) physAxis(code uint16) *AxisDesc {
+	for mi := range m.D.Mappings {
+		for si := range m.D.Mappings[mi].Analog {
+			for ai := range m.D.Mappings[mi].Analog[si].Axes {
+				if a := &m.D.Mappings[mi].Analog[si].Axes[ai]; a.Code == code {
+					return a
+				}
+			}
+		}
 	}
 	return nil
 }
